@@ -26,6 +26,35 @@ pub fn run(op: &str, args: &[&str]) -> Option<String> {
                 _ => return None,
             })
         }
+        // hugeseq KIND: a byte collection of exactly 2^32 elements (4 GiB of untouched zero pages) serialized into a
+        // writer that only counts: the length does not fit the u32 prefix, the specification has no encoding for it.
+        // -> "err KIND MSG" | "ok <bytes written>"
+        #[cfg(target_pointer_width = "64")]
+        ("hugeseq", [kind]) => {
+            struct Count(u64);
+            impl borsh::io::Write for Count {
+                fn write(&mut self, b: &[u8]) -> borsh::io::Result<usize> {
+                    self.0 += b.len() as u64;
+                    Ok(b.len())
+                }
+                fn flush(&mut self) -> borsh::io::Result<()> {
+                    Ok(())
+                }
+            }
+            let v: Vec<u8> = vec![0u8; 1usize << 32];
+            let mut w = Count(0);
+            let r = match *kind {
+                "vec" => borsh::to_writer(&mut w, &v),
+                "deque" => borsh::to_writer(&mut w, &std::collections::VecDeque::from(v)),
+                "boxslice" => borsh::to_writer(&mut w, &v.into_boxed_slice()),
+                "slice" => borsh::to_writer(&mut w, &v[..]),
+                _ => return None,
+            };
+            Some(match r {
+                Ok(()) => format!("ok {}", w.0),
+                Err(e) => crate::errs::err_s(&e),
+            })
+        }
         _ => None,
     }
 }
